@@ -128,6 +128,76 @@ for kl in ("IM", "NM", "MM"):
         con.cases.append(c)
 
 
+# CPython's priority rule: if type(rhs) is a proper subclass of type(lhs) and overrides the reflected method,
+# rhs.__rop__(lhs) is tried BEFORE lhs.__op__(rhs).
+def subclass_spec(sx, default_op, reverse_op):
+    it = sx.it
+    lhs, rhs = it.val_lhs, it.val_rhs
+
+    def holds(res):
+        if not (isinstance(res, SObj) and res.kind is _Expr):
+            return False
+        r = res.fields["f_result"]
+        return isinstance(r, tuple) and r[1] == "__rop__" and r[2] is rhs and r[3] is lhs
+
+    return C.Pred(holds, "rhs.__rop__(lhs) first: rhs is an instance of an overriding subclass of type(lhs)")
+
+
+NAME = Built([], lambda env: "__op__", lambda a: "'__op__'", lambda a: None)
+RNAME = Built([], lambda env: "__rop__", lambda a: "'__rop__'", lambda a: None)
+c = Case("rhs-is-overriding-subclass-of-lhs", [NAME, RNAME], subclass_spec)
+c.native = False
+c.may_reject = AssertionError
+c.models = OP_MODELS
+c.custom_replay = "contracts.c10_frontend.replay_subclass_priority"
+c.finding_key = "reflected-method-of-overriding-subclass-not-tried-first"
+
+
+def _sub_env(it):
+    it.calls = []
+    it.val_lhs = SObj(_Prep, f_kind="II", f_tag="lhs")
+    it.val_rhs = SObj(_Prep, f_kind="II", f_tag="rhs (subclass of lhs, overrides __rop__)")
+    return {"self": SObj(_Prep), "type_lhs": ("type", "II", it.val_lhs), "type_rhs": ("type", "II", it.val_rhs), "val_lhs": it.val_lhs, "val_rhs": it.val_rhs,
+            "lhs": SObj(_Expr, f_result=it.val_lhs), "rhs": SObj(_Expr, f_result=it.val_rhs)}
+
+
+c.nested_env = _sub_env
+con.cases.append(c)
+
+_SUBCLASS_DESIGN = '''
+from __future__ import annotations
+from cohdl import Entity, Port, Unsigned, std
+
+class A:
+    def __init__(self, v): self.v = v
+    def __add__(self, other): return A(1)
+    def __radd__(self, other): return A(3)
+
+class B(A):
+    def __radd__(self, other): return A(2)
+
+print("CPYTHON", (A(0) + B(0)).v)
+
+class E(Entity):
+    o = Port.output(Unsigned[4])
+    def architecture(self):
+        @std.concurrent
+        def logic():
+            r = A(0) + B(0)
+            self.o <<= Unsigned[4](r.v)
+
+t = std.VhdlCompiler.to_string(E)
+print("TRACED", [l.strip() for l in t.split("\\n") if "buffer_o <=" in l])
+'''
+
+
+def replay_subclass_priority(payload):
+    from contracts.c06_extra import _run_design
+
+    rc, out = _run_design(_SUBCLASS_DESIGN)
+    return {"reproduced": rc == 0 and "CPYTHON 2" in out and '"0001"' in out, "detail": out[-300:]}
+
+
 # ---- (2)/(3) comprehensions ---------------------------------------------------------------------------------------------
 class _Target:
     """PrepareAst.Target stand-in: unpack(elt) binds the loop variable"""
